@@ -19,6 +19,9 @@ RULE = ('state = one table (or one ordered pair of tables for dataJoin, one type
         'distinct marker values) x key expressions x flag. Scripts: the same operations through parse_script/'
         'execute_script with the table as a global and counts as float literals. CSV: every typed table of <= R rows x 2 '
         'columns, written by the reference writer, read as one string, as separate line strings and from a script. '
+        'Delicate measures: every table of <= N rows with a in {absent,1,2} and measure b in {absent, null, 100000001, '
+        '100000002, 100000003, 0.1, 0.2, 0.3, 1e+15, -1e+15} x 6 functions x 2 category lists against an exact (fractions) '
+        'reference with tolerances a sound float evaluation meets (non-trivial: a category with >= 2 different values). '
         'Key kinds: every table of <= N rows whose field a is one of {absent, null, true, false, 1, 0, "1", "true", "null", '
         '[true], [1]} (values that differ in BareScript but merge under host ==, hash or text conversion) x filters, 21 sort '
         'key lists, dataTop and dataAggregate with a as category; every ordered pair of such tables of <= 2 rows x dataJoin '
@@ -188,8 +191,8 @@ def show_groups(groups):
     return {repr(k): canon_flat(v) for k, v in groups.items()}
 
 
-def diff_aggregate(result, rows, categories, measures, acc):
-    want = rd.ref_aggregate(rows, categories, measures)
+def diff_aggregate(result, rows, categories, measures, acc, exact=False):
+    want = rd.ref_aggregate(rows, categories, measures, exact)
     d = _diff_aggregate(result, want, categories, measures, acc)
     if d:
         return {repr(k): [canon_flat(c), {n: (v if v is rd.UNSPECIFIED else list(v)) for n, v in m.items()}] for k, (c, m) in want.items()}, d
@@ -212,9 +215,9 @@ def _diff_aggregate(result, want, categories, measures, acc):
                 acc.unspecified += 1
                 continue
             got = row.get(name)
-            if not any((got is None) if a is None else rd.number_close(got, a) for a in accept):
+            if not any(rd.value_within(got, a) for a in accept):
                 func = next(f for _, f, n in measures if n == name)
-                return f'dataAggregate: {func} of category {key!r} is {got!r}, expected {accept[0]!r}'
+                return f'dataAggregate: {func} of category {key!r} is {got!r}, expected {accept[0]!r}' + (' (value, absolute tolerance)' if isinstance(accept[0], tuple) else '')
     if len(seen) != len(want):
         missing = next(k for k in want if k not in seen)
         return f'dataAggregate: no row for category {missing!r}'
@@ -395,6 +398,88 @@ def check_aggregate(case, acc):
         if k % 3 == 0:
             acc.outcome((k, tkey(res)))
     return hit
+
+
+# ---------------------------------------------------------------------------------------------------------------------
+# family aggregate_num: numerically delicate measure values (large offset with a small spread, decimal fractions,
+# huge values of both signs that cancel); a in {absent, 1, 2} is the category
+# ---------------------------------------------------------------------------------------------------------------------
+
+NUM_A = [ABSENT, 1, 2]
+NUM_B = [ABSENT, None, 100000001, 100000002, 100000003, 0.1, 0.2, 0.3, 1e+15, -1e+15]
+NUM_AGGS = [(func, cats) for cats in (None, ['a']) for func in rd.AGG_FUNCTIONS]
+
+
+def build_num_table(rows):
+    """rows: list of [index into NUM_A, index into NUM_B]."""
+    out = []
+    for ia, ib in rows:
+        row = {}
+        if NUM_A[ia] is not ABSENT:
+            row['a'] = NUM_A[ia]
+        if NUM_B[ib] is not ABSENT:
+            row['b'] = NUM_B[ib]
+        out.append(row)
+    return out
+
+
+def num_rows():
+    return [[ia, ib] for ia in range(len(NUM_A)) for ib in range(len(NUM_B))]
+
+
+def check_aggregate_num(case, acc):
+    rows = case['rows']
+    table = build_num_table(rows)
+    for k, (func, cats) in enumerate(NUM_AGGS):
+        if case.get('variant', k) != k:
+            continue
+        if not table:
+            acc.unspecified += 1
+            continue
+        measures = [('b', func, 'b')]
+        model = agg_model(measures, cats)
+        ok, res = call(acc, 'dataAggregate', [build_num_table(rows), model])
+        acc.traces += 1
+        c2 = dict(case, variant=k, op=f'dataAggregate(t, {model})', table=table)
+        if not ok:
+            acc.violation(c2, 'an aggregated data array', res, 'dataAggregate raised')
+            continue
+        d = diff_aggregate(res, table, cats, measures, acc, exact=True)
+        if d:
+            acc.violation(c2, d[0], canon_flat(res), d[1])
+        if k in (5, 11):
+            acc.outcome((k, tkey(res)))
+    # non-trivial: a category holds >= 2 different non-null measure values (deviation and mean are not a single value)
+    return any(len({m.get('b') for m in members if m.get('b') is not None}) >= 2 for members in rd.ref_groups(table, ['a']).values())
+
+
+def num_shards(nrows, nchunks):
+    n = len(num_rows())
+    return [(nrows, first, chunk, ci == 0) for first in range(n) for ci, chunk in enumerate(split(list(range(n)), nchunks))]
+
+
+def fam_aggregate_num(arg):
+    nrows, first, seconds, with_short = arg
+    acc = Acc('aggregate_num')
+    cells = num_rows()
+
+    def tables():
+        if with_short:
+            if first == 0:
+                yield []
+            yield [cells[first]]
+        for n in range(0, nrows - 1):
+            for second in seconds:
+                for rest in itertools.product(cells, repeat=n):
+                    yield [cells[first], cells[second]] + list(rest)
+    for rows in tables():
+        acc.cases += 1
+        acc.states += 1
+        if check_aggregate_num({'rows': rows}, acc):
+            acc.nontrivial += 1
+        if len(rows) == 3 and [r[1] for r in rows] == [2, 3, 4] and rows[0][0] == rows[1][0] == rows[2][0]:
+            acc.sample({'table': build_num_table(rows), 'operations': 'dataAggregate, six functions, categories none and [a]'})
+    return acc.result()
 
 
 # ---------------------------------------------------------------------------------------------------------------------
@@ -1092,6 +1177,10 @@ def families(tier):
         Family('aggregate', fam_aggregate, tshards,
                f'{tb} x 6 functions on measure b x categories none,[a] + one call with two named measures ({len(AGGS)} calls); '
                'non-count functions only on tables whose non-null b cells are numbers', expected=nt),
+        Family('aggregate_num', fam_aggregate_num, num_shards(nrows, 1 if quick else 6),
+               f'every table of <= {nrows} rows with a from {{absent, 1, 2}} and measure b from {{absent, null, 100000001, 100000002, 100000003, '
+               f'0.1, 0.2, 0.3, 1e+15, -1e+15}} x 6 functions x categories none,[a]; exact (fractions) reference with tolerances a sound '
+               'float evaluation meets', expected=sum(len(num_rows()) ** k for k in range(nrows + 1))),
         Family('calc', fam_calc, tshards, f'{tb} x {len(CALCS)} calculated fields (new field, overwritten field, variables)', expected=nt),
         Family('join_keys', fam_join_keys, [(tier, c) for c in split(list(range(kt)), 64)],
                f'every ordered pair of the {kt} tables of <= 2 rows over a,b with cells a: {[CELLS[i][0] for i in JOIN_CELLS[tier][0]]}, '
@@ -1122,7 +1211,7 @@ def families(tier):
 
 _CHECKS = {'filter': check_filter, 'sort': check_sort, 'top': check_top, 'aggregate': check_aggregate, 'calc': check_calc,
            'join_keys': check_join_keys, 'join_names': check_join_names, 'script': check_script, 'csv': check_csv,
-           'keykinds': check_keykinds, 'join_keykinds': check_join_keykinds, 'csv_tz': check_csv_tz}
+           'aggregate_num': check_aggregate_num, 'keykinds': check_keykinds, 'join_keykinds': check_join_keykinds, 'csv_tz': check_csv_tz}
 
 
 def replay(family, case):
